@@ -344,7 +344,7 @@ func judge(oc *harnessOutcome, rp *Replayer, known []KnownFinding, prop string, 
 				}
 			}
 			if !found {
-				reasons = append(reasons, fmt.Sprintf("witness for %s did not reach it natively (assume_failed=%v missing=%s panic=%s)", site, r.AssumeFailed, r.MissingInput, firstLine(r.Panic)))
+				reasons = append(reasons, fmt.Sprintf("witness for %s did not reach it natively (assume_failed=%v missing=%s panic=%s) inputs=%v reached=%v", site, r.AssumeFailed, r.MissingInput, firstLine(r.Panic), hr.Witness[site], r.Reached))
 			}
 		}
 	} else {
